@@ -15,6 +15,11 @@ CHECKS = {
    technique='bounded symbolic execution (CrossHair/z3) of checker.matches_golden / check / execute with all options, golden records and run outcomes symbolic, against the documented rule; exhaustive per partition',
    text='All combinations of the nine comparison options, match strings, exit codes (unbounded ints) and streams (strings up to the bound) are solver-quantified; check() wiring is verified for main and cross-check command, execute() argv and the candidate file extension with fakes for Popen/resource/tempfile. Every partition must come back exhausted.',
    note='Trusted: CrossHair/z3 string and int models; spec_checker.py (12-line restatement of docs/quickstart.rst). Stubs: checker.execute (wiring), subprocess/resource/tempfile fakes (invoke). Outside: strings longer than the bound, a real subprocess.'),
+ 'C10': dict(
+   category='model_checking', design_ref='DESIGN.md 5 C10',
+   technique='bounded symbolic execution (CrossHair/z3) of checker.execute / check / do_golden_runs / limit_resources with a nondeterministic fake Popen (time-out or finish, any return code), symbolic real-valued run times and limits, symbolic streams and options',
+   text='Decides, for every outcome of the command process (finishes with any exit code incl. signals, or exceeds the limit), every option valuation and every real-valued golden run time / explicit limit: the child is killed and nothing blocks on it, the time-out record is rejected unless the golden run ended the same way, check() never raises, a missing match string ends ddSMT with status 1, the default limit is 1.5 x (runtime + 1) (up to rounding to 2 decimals), RLIMIT_CPU = ceil(limit), RLIMIT_AS = memout MiB on the child pid.',
+   note='Trusted: CrossHair/z3; fake Popen/resource modules (contract: communicate(timeout) returns or raises TimeoutExpired); times modelled as mathematical reals (IEEE rounding outside); log formatting stubbed (vlib/stubs/nofmt.py). Outside: kernel enforcement of rlimits, grandchildren holding pipes, total wall time of a run.'),
 }
 NOT_APPLICABLE = {}
 ALL = ['C%02d' % i for i in range(1, 19)]
